@@ -6,6 +6,7 @@ package main
 import (
 	"fmt"
 	"go/ast"
+	"go/constant"
 	"go/token"
 	"go/types"
 	"regexp"
@@ -1512,4 +1513,438 @@ func checkColumnAttrCoverage(c *Ctx, rule string) {
 		_, ok := compared[k]
 		c.Check(rule, "sqlite|column writer consults "+k+" ⇒ ColumnChange compares it", written[k], ok, "sqlite.(state).column emits a different column clause depending on the %s attribute, but sqlite.(diff).ColumnChange (and its helpers) never consults it: adding or removing it in the desired schema plans nothing and the database never converges to it", k)
 	}
+}
+
+// R08h: positions are reported in the coordinates of the caller's text.
+const ruleTextCallerText = "the scanned text is the caller's text: Scanner.Scan hands its own string parameter to Scanner.init, and no function of the migrate package that passes a string parameter to Scanner.init / Scanner.Scan assigns to that parameter first (no normalising rewrite such as ReplaceAll on the way in): every Stmt.Pos and Stmt.Text is later used to index the original file bytes, so a rewritten copy shifts all positions after the first rewritten byte"
+
+func checkCallerText(c *Ctx, rule string) {
+	n := 0
+	scanSeen := false
+	c.AllFuncs(false, func(fi *FuncInfo) {
+		if fi.Pkg.PkgPath != pMigrate {
+			return
+		}
+		info := fi.Info()
+		params := map[types.Object]bool{}
+		for _, fld := range fi.Decl.Type.Params.List {
+			for _, nm := range fld.Names {
+				if b, ok := info.TypeOf(fld.Type).Underlying().(*types.Basic); ok && b.Kind() == types.String {
+					params[info.ObjectOf(nm)] = true
+				}
+			}
+		}
+		isScanEntry := recvName(fi.Decl) == "Scanner" && fi.Decl.Name.Name == "Scan"
+		ast.Inspect(fi.Decl.Body, func(m ast.Node) bool {
+			call, ok := m.(*ast.CallExpr)
+			if !ok || len(call.Args) != 1 {
+				return true
+			}
+			fn := calleeOf(info, call)
+			if fn == nil || recvTypeName(fn) != "Scanner" || (fn.Name() != "init" && fn.Name() != "Scan") {
+				return true
+			}
+			id, isID := ast.Unparen(call.Args[0]).(*ast.Ident)
+			if !isID || !params[info.ObjectOf(id)] {
+				if isScanEntry && fn.Name() == "init" {
+					n++
+					scanSeen = true
+					c.Check(rule, fi.Name+"|init receives the parameter", call.Pos(), false, "%s initialises the scanner with %s instead of its own input parameter: positions are reported relative to a different text than the caller's", fi.Name, types.ExprString(call.Args[0]))
+				}
+				return true
+			}
+			obj := info.ObjectOf(id)
+			var bad ast.Node
+			ast.Inspect(fi.Decl.Body, func(k ast.Node) bool {
+				as, ok := k.(*ast.AssignStmt)
+				if !ok || bad != nil {
+					return bad == nil
+				}
+				for _, l := range as.Lhs {
+					if lid, ok := l.(*ast.Ident); ok && info.ObjectOf(lid) == obj && as.Tok != token.DEFINE {
+						bad = as
+					}
+				}
+				return true
+			})
+			n++
+			if isScanEntry {
+				scanSeen = true
+			}
+			c.funcs[fi.Name] = true
+			pos := call.Pos()
+			if bad != nil {
+				pos = bad.Pos()
+			}
+			c.Check(rule, fi.Name+"|"+id.Name+" handed to "+fn.Name()+" unchanged", pos, bad == nil, "%s rewrites its %s parameter before handing it to the scanner: statement positions and texts then refer to the rewritten copy, while reports and the statement executor index the original file", fi.Name, id.Name)
+			return true
+		})
+	})
+	if !scanSeen {
+		c.Unresolved(rule, "Scanner.Scan: call of Scanner.init")
+	}
+	_ = n
+}
+
+// R06j: the directory URL is completed from the project file before the legacy flag is folded into it.
+const ruleTextConfigBeforeFormat = "sibling agreement of the migrate commands: in every PreRunE of cmd/atlas/internal/cmdapi that calls both migrateFlagsFromConfig and dirFormatBC, migrateFlagsFromConfig comes first on every path; dirFormatBC folds the directory format into the directory URL, and a format that comes from the project file (env.migration.format) only exists after the flags were loaded — otherwise `migrate hash --env` hashes a golang-migrate/flyway directory as plain *.sql files and writes a sum file that `migrate validate` rejects"
+
+func checkConfigBeforeFormat(c *Ctx, rule string) {
+	pp := modRoot + "/cmd/atlas/internal/cmdapi"
+	n := 0
+	c.AllFuncs(false, func(fi *FuncInfo) {
+		if fi.Pkg.PkgPath != pp {
+			return
+		}
+		info := fi.Info()
+		ast.Inspect(fi.Decl.Body, func(m ast.Node) bool {
+			lit, ok := m.(*ast.FuncLit)
+			if !ok {
+				return true
+			}
+			isCfg := func(fn *types.Func, _ *ast.CallExpr) bool { return fn.Name() == "migrateFlagsFromConfig" }
+			isFmt := func(fn *types.Func, _ *ast.CallExpr) bool { return fn.Name() == "dirFormatBC" }
+			has := func(p callPred) bool {
+				for _, call := range callsIn(lit.Body, false) {
+					if fn := calleeOf(info, call); fn != nil && p(fn, call) {
+						return true
+					}
+				}
+				return false
+			}
+			if !has(isCfg) || !has(isFmt) {
+				return true
+			}
+			n++
+			c.funcs[fi.Name] = true
+			f := newFlow(info, lit.Body)
+			w, ok2 := f.mustPrecede(f.callNode(isCfg), f.callNode(isFmt))
+			c.Check(rule, fi.Name+"|config flags loaded before dirFormatBC", nodePos(w, lit.Pos()), ok2, "in %s the PreRunE folds --dir-format into the directory URL before the flags are completed from the project file: a directory format given only in the env block is ignored by this command", fi.Name)
+			return false
+		})
+	})
+	if n < 4 {
+		c.Unresolved(rule, "PreRunE closures calling both migrateFlagsFromConfig and dirFormatBC (fewer than 4)")
+	}
+}
+
+// R07j: the writer's "needs explicit delimiting" test is no narrower than "has a line break".
+const ruleTextMultilineGuard = "writer/reader agreement for line-oriented formats: the template function that decides whether a statement is bracketed by the tool's begin/end pragmas (the condition around `StatementBegin` in the goose template) is true for every statement that contains a line break — its body returns strings.Contains (or an equivalent search) of the argument for a constant made of line-break bytes only; the reader ends a statement at any line that, after trimming, ends with the delimiter, so a narrower test (e.g. \";\\n\") leaves statements unbracketed that the reader will split"
+
+func checkMultilineGuard(c *Ctx, rule string) {
+	pp := modRoot + "/sql/sqltool"
+	p := c.Pkg(pp)
+	// 1. condition functions used in an {{ if F .Cmd }} whose body mentions StatementBegin
+	conds := map[string]bool{}
+	for _, f := range p.Syntax {
+		ast.Inspect(f, func(m ast.Node) bool {
+			lit, ok := m.(*ast.BasicLit)
+			if !ok || lit.Kind != token.STRING {
+				return true
+			}
+			s, ok := stringConst(p.TypesInfo, lit)
+			if !ok || !strings.Contains(s, "StatementBegin") || !strings.Contains(s, "{{") {
+				return true
+			}
+			for _, m := range regexp.MustCompile(`\{\{-?\s*if\s+(\w+)\s+[.$]`).FindAllStringSubmatch(s, -1) {
+				conds[m[1]] = true
+			}
+			return true
+		})
+	}
+	if len(conds) == 0 {
+		c.Unresolved(rule, "condition function around StatementBegin in the goose template")
+		return
+	}
+	// 2. their definitions in the FuncMap literals
+	n := 0
+	for _, f := range p.Syntax {
+		ast.Inspect(f, func(m ast.Node) bool {
+			kv, ok := m.(*ast.KeyValueExpr)
+			if !ok {
+				return true
+			}
+			k, ok := stringConst(p.TypesInfo, kv.Key)
+			if !ok || !conds[k] {
+				return true
+			}
+			var body *ast.BlockStmt
+			var params *ast.FieldList
+			switch v := kv.Value.(type) {
+			case *ast.FuncLit:
+				body, params = v.Body, v.Type.Params
+			case *ast.Ident:
+				if fn, ok := p.TypesInfo.ObjectOf(v).(*types.Func); ok {
+					if fi := c.FuncInfoOf(fn); fi != nil {
+						body, params = fi.Decl.Body, fi.Decl.Type.Params
+					}
+				}
+			}
+			if body == nil || params == nil || params.NumFields() != 1 {
+				c.Unresolved(rule, "definition of template function "+k)
+				return true
+			}
+			n++
+			info := p.TypesInfo
+			param := info.ObjectOf(params.List[0].Names[0])
+			good := false
+			what := "its body is not a single search of the argument for a line break"
+			if len(body.List) == 1 {
+				if ret, ok := body.List[0].(*ast.ReturnStmt); ok && len(ret.Results) == 1 {
+					e := ast.Unparen(ret.Results[0])
+					// strings.Index*(s, c) >= 0 / != -1
+					if be, ok := e.(*ast.BinaryExpr); ok {
+						e = ast.Unparen(be.X)
+					}
+					if call, ok := e.(*ast.CallExpr); ok && len(call.Args) == 2 {
+						fn := calleeOf(info, call)
+						id, isID := ast.Unparen(call.Args[0]).(*ast.Ident)
+						if fn != nil && fn.Pkg() != nil && fn.Pkg().Path() == "strings" && (strings.HasPrefix(fn.Name(), "Contains") || strings.HasPrefix(fn.Name(), "Index")) && isID && info.ObjectOf(id) == param {
+							if tv := info.Types[call.Args[1]]; tv.Value != nil {
+								var cs string
+								switch tv.Value.Kind() {
+								case constant.String:
+									cs = constant.StringVal(tv.Value)
+								case constant.Int:
+									if v, ok := constant.Int64Val(tv.Value); ok {
+										cs = string(rune(v))
+									}
+								}
+								good = cs != "" && strings.Trim(cs, "\r\n") == ""
+								if fn.Name() == "ContainsAny" || fn.Name() == "IndexAny" {
+									good = strings.Contains(cs, "\n")
+								}
+								what = fmt.Sprintf("it searches for %q", cs)
+							}
+						}
+					}
+				}
+			}
+			c.Check(rule, "sqltool|template func "+k+" is true for every multi-line statement", kv.Pos(), good, "the template function %q decides whether a statement is bracketed by the begin/end pragmas, but %s: a statement with a line break that fails this test is written unbracketed, and the line-oriented reader ends it at the first line that ends with the delimiter after trimming", k, what)
+			return true
+		})
+	}
+	if n == 0 {
+		c.Unresolved(rule, "FuncMap entry of the condition function")
+	}
+}
+
+// R07k: enum / set values reach SQL text only through an escaping function.
+const ruleTextEnumValuesEscaped = "literal quoting of value lists: in the MySQL and PostgreSQL planners and type formatters, an element of EnumType.Values / SetType.Values is written into SQL text (Builder.WriteString/P, fmt.Sprintf, or concatenation with a quote character) only as the argument of a function that doubles embedded quotes (the dialect's quote(), sqlx.SingleQuote, or a strings.ReplaceAll of the quote character); wrapping the value in quotes alone lets a value such as it's close the literal early, and the statement scanner then splits or rejects the planned statement"
+
+func checkEnumValuesEscaped(c *Ctx, rule string) {
+	n := 0
+	for _, pp := range []string{pMysql, pPostgres} {
+		c.AllFuncs(false, func(fi *FuncInfo) {
+			if fi.Pkg.PkgPath != pp {
+				return
+			}
+			info := fi.Info()
+			isValues := func(e ast.Expr) bool {
+				se, ok := ast.Unparen(e).(*ast.SelectorExpr)
+				if !ok || se.Sel.Name != "Values" {
+					return false
+				}
+				nt := namedOf(derefType(info.TypeOf(se.X)))
+				return nt != nil && (nt.Obj().Name() == "EnumType" || nt.Obj().Name() == "SetType")
+			}
+			// value variables: range values over .Values, and []string parameters handed .Values by a caller in the package
+			vals := map[types.Object]bool{}
+			slices := map[types.Object]bool{}
+			for _, fld := range fi.Decl.Type.Params.List {
+				for _, nm := range fld.Names {
+					if sl, ok := info.TypeOf(fld.Type).Underlying().(*types.Slice); ok {
+						if b, ok := sl.Elem().Underlying().(*types.Basic); ok && b.Kind() == types.String && paramReceivesValues(c, fi, info.ObjectOf(nm)) {
+							slices[info.ObjectOf(nm)] = true
+						}
+					}
+				}
+			}
+			isValSlice := func(e ast.Expr) bool {
+				if isValues(e) {
+					return true
+				}
+				id, ok := ast.Unparen(e).(*ast.Ident)
+				return ok && slices[info.ObjectOf(id)]
+			}
+			for changed := true; changed; {
+				changed = false
+				ast.Inspect(fi.Decl.Body, func(m ast.Node) bool {
+					switch x := m.(type) {
+					case *ast.RangeStmt:
+						if isValSlice(x.X) {
+							if id, ok := x.Value.(*ast.Ident); ok && !vals[info.ObjectOf(id)] {
+								vals[info.ObjectOf(id)] = true
+								changed = true
+							}
+						}
+					case *ast.AssignStmt:
+						// values[i] = vs[i]: a slice that holds copies of the values
+						if len(x.Lhs) == 1 && len(x.Rhs) == 1 {
+							if ix, ok := ast.Unparen(x.Rhs[0]).(*ast.IndexExpr); ok && isValSlice(ix.X) {
+								if lx, ok := ast.Unparen(x.Lhs[0]).(*ast.IndexExpr); ok {
+									if id, ok := ast.Unparen(lx.X).(*ast.Ident); ok && !slices[info.ObjectOf(id)] {
+										slices[info.ObjectOf(id)] = true
+										changed = true
+									}
+								}
+							}
+						}
+					}
+					return true
+				})
+			}
+			isVal := func(e ast.Expr) bool {
+				switch x := ast.Unparen(e).(type) {
+				case *ast.Ident:
+					return vals[info.ObjectOf(x)]
+				case *ast.IndexExpr:
+					return isValSlice(x.X)
+				}
+				return false
+			}
+			pm := parentMap(fi.Decl.Body)
+			k := 0
+			ast.Inspect(fi.Decl.Body, func(m ast.Node) bool {
+				e, ok := m.(ast.Expr)
+				if !ok || !isVal(e) {
+					return true
+				}
+				// classify the use
+				verdict := "" // "", "escaped", "raw"
+				child := ast.Node(e)
+				for p := pm[e]; p != nil && verdict == ""; child, p = p, pm[p] {
+					switch x := p.(type) {
+					case *ast.CallExpr:
+						fn := calleeOf(info, x)
+						if fn == nil {
+							continue
+						}
+						switch {
+						case fn.Name() == "quote" || fn.Name() == "SingleQuote" || (fn.Pkg() != nil && fn.Pkg().Path() == "strings" && fn.Name() == "ReplaceAll"):
+							verdict = "escaped"
+						case onBuilder(info, x) && (fn.Name() == "WriteString" || fn.Name() == "P"), funcIs(fn, "fmt", "", "Sprintf"):
+							verdict = "raw"
+						}
+					case *ast.BinaryExpr:
+						if x.Op == token.ADD {
+							for _, side := range []ast.Expr{x.X, x.Y} {
+								if side != child {
+									if s, ok := stringConst(info, side); ok && strings.ContainsAny(s, "'\"") {
+										verdict = "raw"
+									}
+								}
+							}
+						}
+					case *ast.AssignStmt:
+						// the left-hand side of an assignment is not a use
+						for _, l := range x.Lhs {
+							if l == child {
+								verdict = "lhs"
+							}
+						}
+					case ast.Stmt:
+						if verdict == "" {
+							verdict = "other"
+						}
+					}
+				}
+				if verdict != "raw" && verdict != "escaped" {
+					return true
+				}
+				k++
+				n++
+				c.funcs[fi.Name] = true
+				c.Check(rule, fmt.Sprintf("%s|value use %d written through an escaping function", fi.Name, k), e.Pos(), verdict == "escaped", "%s writes the enum/set value %s into SQL text wrapped in quotes but without doubling the quotes it contains: a value such as it's ends the literal early, and the planned statement is split or rejected when the migration file is scanned", fi.Name, types.ExprString(e))
+				return true
+			})
+		})
+	}
+	if n < 3 {
+		c.Unresolved(rule, "writes of enum/set values into SQL text (fewer than 3)")
+	}
+}
+
+// paramReceivesValues: some call site in the package passes X.Values (EnumType / SetType) for this parameter.
+func paramReceivesValues(c *Ctx, fi *FuncInfo, param types.Object) bool {
+	idx := -1
+	k := 0
+	for _, fld := range fi.Decl.Type.Params.List {
+		for _, nm := range fld.Names {
+			if fi.Info().ObjectOf(nm) == param {
+				idx = k
+			}
+			k++
+		}
+	}
+	if idx < 0 {
+		return false
+	}
+	hit := false
+	c.AllFuncs(false, func(g *FuncInfo) {
+		if g.Pkg != fi.Pkg || hit {
+			return
+		}
+		info := g.Info()
+		for _, call := range callsIn(g.Decl.Body, true) {
+			if calleeOf(info, call) != fi.Obj || idx >= len(call.Args) {
+				continue
+			}
+			if se, ok := ast.Unparen(call.Args[idx]).(*ast.SelectorExpr); ok && se.Sel.Name == "Values" {
+				if nt := namedOf(derefType(info.TypeOf(se.X))); nt != nil && (nt.Obj().Name() == "EnumType" || nt.Obj().Name() == "SetType") {
+					hit = true
+				}
+			}
+		}
+	})
+	return hit
+}
+
+// onBuilder: the call is a method call on a value of type (*)sqlx.Builder, also when the
+// method is promoted from the embedded buffer (WriteString).
+func onBuilder(info *types.Info, call *ast.CallExpr) bool {
+	se, ok := call.Fun.(*ast.SelectorExpr)
+	if !ok {
+		return false
+	}
+	nt := namedOf(derefType(info.TypeOf(se.X)))
+	return nt != nil && nt.Obj().Name() == "Builder" && nt.Obj().Pkg() != nil && nt.Obj().Pkg().Path() == pSqlx
+}
+
+// R09o: a fresh database starts from the LAST checkpoint.
+const ruleTextLastCheckpoint = "FilesFromLastCheckpoint starts at the last checkpoint: the checkpoint it hands to FilesFromCheckpoint (or slices the listing at) is selected as the last element of the checkpoint list (X[len(X)-1], or the result of a backwards search), and the function contains no first-match search for a checkpoint (slices.IndexFunc / a forward loop that stops at the first IsCheckpoint); starting at an earlier checkpoint re-executes, after the later checkpoint, everything that checkpoint already contains"
+
+func checkLastCheckpoint(c *Ctx, rule string) {
+	fi := c.Func(rule, pMigrate, "", "FilesFromLastCheckpoint")
+	if fi == nil {
+		return
+	}
+	info := fi.Info()
+	last, first := false, ""
+	ast.Inspect(fi.Decl.Body, func(m ast.Node) bool {
+		switch x := m.(type) {
+		case *ast.IndexExpr:
+			if _, isSlice := info.TypeOf(x.X).Underlying().(*types.Slice); isSlice {
+				if cn, k, ok := lenMinusConst(info, fi.Decl.Body, x.Index, types.ExprString(x.X), 0); ok {
+					switch {
+					case cn == 1 && k == -1:
+						last = true
+					case cn == 0:
+						first = types.ExprString(x)
+					}
+				}
+			}
+		case *ast.CallExpr:
+			fn := calleeOf(info, x)
+			if fn != nil && fn.Pkg() != nil && fn.Pkg().Path() == "slices" && (fn.Name() == "IndexFunc" || fn.Name() == "Index") {
+				first = types.ExprString(x.Fun) + "(…) returns the first match"
+			}
+			if fn != nil && strings.Contains(fn.Name(), "Last") && fn.Name() != "FilesFromLastCheckpoint" {
+				last = true
+			}
+		}
+		return true
+	})
+	c.funcs[fi.Name] = true
+	c.Check(rule, "migrate.FilesFromLastCheckpoint|starts at the last checkpoint", fi.Decl.Pos(), last && first == "", "FilesFromLastCheckpoint does not select the last checkpoint (last-element selection found: %v; first-match selection: %q): with two checkpoints a fresh database replays the first checkpoint and the files after it and then the second checkpoint, which contains them again", last, first)
 }
